@@ -159,18 +159,18 @@ static std::optional<Failure> check_one(Run &R, const Bytes &a, int mask) {
 static bool run_one(Run &R, const Bytes &a, int mask) { auto f = check_one(R, a, mask); return !(f && !R.fail(*f)); }
 
 // (iv) eav_setup: return values for every class of rfc value, and the message after an invalid one
-static std::optional<Failure> check_setup(Run &R, int raw, const Bytes &prev_addr) {
-    const vapi *A = K_->A; Case cs; cs.i("kind", 1).i("raw", raw).b("prev", prev_addr); g_case = cs.str();
+static std::optional<Failure> check_setup(Run &R, int raw, const Bytes &prev_addr, int mode0 = 1) {
+    const vapi *A = K_->A; Case cs; cs.i("kind", 1).i("raw", raw).b("prev", prev_addr).i("mode0", mode0); g_case = cs.str();
     K k(A);
     bool valid = raw == k("EAV_RFC_822") || raw == k("EAV_RFC_5321") || raw == k("EAV_RFC_5322") || raw == k("EAV_RFC_6531");
     Obj o(A); TailBuf tb;
-    if (o.configure(1, 1) != 0) return Failure{"setup-valid-mode-fails", cs.str(), "eav_setup failed for mode 5321"};
+    if (o.configure(mode0, 1) != 0) return Failure{"setup-valid-mode-fails", cs.str(), "eav_setup failed for a defined mode"};
     v_outcome ok = o.is_email_tail(tb, "a@b.com"); std::string noerr = ok.errstr;   // the library's own 'no error' text
     v_outcome prev; memset(&prev, 0, sizeof prev);
     if (!prev_addr.empty()) prev = o.is_email_tail(tb, prev_addr);
     A->obj_set_rfc_raw(o.p, raw);
     int rc = A->obj_setup(o.p); R.eval();
-    R.nontrivial(hashs(prev_addr, (uint64_t) (unsigned) raw));
+    R.nontrivial(hashs(prev_addr, (uint64_t) (unsigned) raw * 4 + mode0));
     R.count(valid ? "setup-valid" : "setup-invalid");
     if (valid) { if (rc != 0) return Failure{"setup-valid-mode-fails", cs.str(), "eav_setup returned " + std::to_string(rc) + " for defined mode value " + std::to_string(raw)}; return std::nullopt; }
     if (rc != k("EEAV_INVALID_RFC")) return Failure{"setup-invalid-mode-return", cs.str(), "eav_setup returned " + std::to_string(rc) + " for rfc=" + std::to_string(raw) + ", documented EEAV_INVALID_RFC"};
@@ -185,11 +185,11 @@ static std::optional<Failure> check_setup(Run &R, int raw, const Bytes &prev_add
 static void stage_setup(Run &R) {
     K k(K_->A);
     std::vector<int> raws = {k("EAV_RFC_822"), k("EAV_RFC_5321"), k("EAV_RFC_5322"), k("EAV_RFC_6531"), -1, 4, 5, 7, 100, 255, 256, 65536, INT_MAX, INT_MIN, -2, 1 << 30};
-    for (int r : raws) for (const char *p : {"", "a..b@c.com", "a@b", "a@-b.com", "a@b.zzunlisted", "\xD0\x96@\xE2\x99\xA5.com", "a@[1.2.3]"}) {
-        auto f = check_setup(R, r, p); if (f && !R.fail(*f)) return;
+    for (int m0 = 0; m0 < 4; m0++) for (int r : raws) for (const char *p : {"", "a..b@c.com", "a@b", "a@-b.com", "a@b.zzunlisted", "\xD0\x96@\xE2\x99\xA5.com", "a@[1.2.3]", "user@xn--a.com", "a@b.com"}) {
+        auto f = check_setup(R, r, p, m0); if (f && !R.fail(*f)) return;
     }
     R.sample("setup", "rfc raw values {4 defined, -1, 4, 5, 7, 100, 255, 256, 65536, INT_MAX, INT_MIN, ...} x 7 previous outcomes");
-    R.space("C15 eav_setup: 16 rfc values x 7 preceding outcomes", raws.size() * 7);
+    R.space("C15 eav_setup: 4 initial modes x 16 rfc values x 9 preceding outcomes (incl. an IDN-library error in mode 6531)", 4 * raws.size() * 9);
 }
 
 // every code through a caller-installed callback: messages of all 35 codes (v) incl. TEST / RETIRED
@@ -242,7 +242,7 @@ int main(int argc, char **argv) {
     int rc = std_main(argc, argv, "C15", {{"setup", stage_setup}, {"codes", stage_codes}, {"random", stage_random}, {"targets", stage_targets}},
         [](Run &R, const Case &c) -> std::optional<Failure> {
             int kind = (int) c.geti("kind");
-            if (kind == 1) return check_setup(R, (int) c.geti("raw"), c.getb("prev"));
+            if (kind == 1) return check_setup(R, (int) c.geti("raw"), c.getb("prev"), (int) c.geti("mode0", 1));
             if (kind == 2) { Run R2; R2.a = R.a; stage_codes(R2); if (R2.failed()) return R2.failures[0]; return std::nullopt; }
             return check_one(R, c.getb("addr"), (int) c.geti("mask"));
         }, [] { return g_case; },
